@@ -26,10 +26,11 @@ type Obj struct {
 	Kind   ObjKind
 	Typ    types.Type // cell: value type; region: element type; map: map type
 	Name   string
-	Fresh  bool // allocated during the execution under analysis (not reachable from inputs)
-	Pool   bool // pool-owned buffer (bytebufferpool / sync.Pool)
+	Fresh  bool  // allocated during the execution under analysis (not reachable from inputs)
+	Pool   bool  // pool-owned buffer (bytebufferpool / sync.Pool)
 	FreshT *Term // Bool: the object's memory is owned by this execution (not an input, not pooled, not a view of either); nil = derive from Fresh/Pool
-	Opaque bool // identity unknown (result of a havoc or of a contracted call): may alias other objects
+	Opaque bool  // identity unknown (result of a havoc or of a contracted call): may alias other objects
+	SymID  *Term // object named by a pointer value read out of a slice/array element (the element's Int identity); read-only
 }
 
 func (o *Obj) String() string { return fmt.Sprintf("%s#%d", o.Name, o.ID) }
@@ -50,11 +51,11 @@ func (r *RegionVal) Length() *Term {
 }
 
 type MapContent struct {
-	ValFresh *Term          // Bool: every slice stored as (part of) a value is owned memory (see Obj.FreshT); nil = true
-	Dom    *Term            // Array K Bool
-	Leaves map[string]*Term // leaf path -> Array K LeafSort
-	Card   *Term            // Int, number of keys
-	Nil    *Term            // Bool
+	ValFresh *Term            // Bool: every slice stored as (part of) a value is owned memory (see Obj.FreshT); nil = true
+	Dom      *Term            // Array K Bool
+	Leaves   map[string]*Term // leaf path -> Array K LeafSort
+	Card     *Term            // Int, number of keys
+	Nil      *Term            // Bool
 }
 
 type SliceVal struct {
@@ -102,6 +103,7 @@ type FuncVal struct {
 	Fn   interface{} // *ssa.Function
 	Bind []Value
 	Name string
+	Sym  *Term // symbolic function identity (Int, 0 = nil) when the function is not known statically
 }
 
 type TupleVal struct {
@@ -349,7 +351,7 @@ func (x *Exec) freshValue(st *State, t types.Type, name string, input bool) Valu
 		st.Heap[o] = x.freshMapContent(st, u, name)
 		return &MapVal{Obj: o}
 	case *types.Signature:
-		return &FuncVal{Name: name}
+		return &FuncVal{Name: name, Sym: Fresh(name, SInt)}
 	case *types.Tuple:
 		tv := &TupleVal{}
 		for i := 0; i < u.Len(); i++ {
